@@ -59,6 +59,8 @@ theorem firstResolve_append (k : Nat) (l l' : List (Op V)) :
   | cons op t ih =>
     cases op with
     | call c b => simpa [firstResolve] using ih
+    | exportObj pa o => simpa [firstResolve] using ih
+    | unexportObj pa => simpa [firstResolve] using ih
     | resolve j r =>
       by_cases h : j = k
       · simp [firstResolve, h]
@@ -80,10 +82,10 @@ theorem eventsOf_nil (k : Nat) : eventsOf k ([] : List (Nat × Event V)) = [] :=
 
 /-! ### runs -/
 
-theorem runFrom_append (env : Env V) (ex : Exports) (s : State) (a b : List (Op V)) :
-    runFrom env ex s (a ++ b) =
-      ((runFrom env ex (runFrom env ex s a).1 b).1,
-       (runFrom env ex s a).2 ++ (runFrom env ex (runFrom env ex s a).1 b).2) := by
+theorem runFrom_append (env : Env V) (s : State) (a b : List (Op V)) :
+    runFrom env s (a ++ b) =
+      ((runFrom env (runFrom env s a).1 b).1,
+       (runFrom env s a).2 ++ (runFrom env (runFrom env s a).1 b).2) := by
   induction a generalizing s with
   | nil => simp [runFrom]
   | cons op t ih =>
@@ -91,10 +93,28 @@ theorem runFrom_append (env : Env V) (ex : Exports) (s : State) (a b : List (Op 
 
 theorem run_snoc (env : Env V) (ex : Exports) (ops : List (Op V)) (op : Op V) :
     run env ex (ops ++ [op]) =
-      ((step env ex (run env ex ops).1 op).1, (run env ex ops).2 ++ (step env ex (run env ex ops).1 op).2) := by
+      ((step env (run env ex ops).1 op).1, (run env ex ops).2 ++ (step env (run env ex ops).1 op).2) := by
   unfold run
   rw [runFrom_append]
   simp [runFrom]
+
+/-! ### exports over a history -/
+
+theorem exportsAfter_append (ex : Exports) (a b : List (Op V)) :
+    exportsAfter ex (a ++ b) = exportsAfter (exportsAfter ex a) b := by
+  induction a generalizing ex with
+  | nil => rfl
+  | cons op t ih => cases op <;> simp [exportsAfter, ih]
+
+theorem exportsAt_snoc_le (ex : Exports) (ops : List (Op V)) (op : Op V) (k : Nat) (h : k ≤ ops.length) :
+    exportsAt ex (ops ++ [op]) k = exportsAt ex ops k := by
+  unfold exportsAt
+  rw [List.take_append_of_le_length h]
+
+theorem exportsAt_length (ex : Exports) (ops : List (Op V)) :
+    exportsAt ex ops ops.length = exportsAfter ex ops := by
+  unfold exportsAt
+  rw [List.take_length]
 
 /-! ### what call `k` produced in a history -/
 
@@ -103,8 +123,8 @@ its Deferred did. -/
 def callEvents (env : Env V) (ex : Exports) (ops : List (Op V)) (k : Nat) : List (Event V) :=
   match ops[k]? with
   | some (.call c b) =>
-    (handleCall env ex k c b).1 ++
-      (match (handleCall env ex k c b).2 with
+    (handleCall env (exportsAt ex ops k) k c b).1 ++
+      (match (handleCall env (exportsAt ex ops k) k c b).2 with
        | some p =>
          match firstResolve k (ops.drop (k + 1)) with
          | some res => fire env p res
@@ -114,7 +134,7 @@ def callEvents (env : Env V) (ex : Exports) (ops : List (Op V)) (k : Nat) : List
 
 /-- The reply callbacks of call `p.id` are still waiting at the end of the history. -/
 def IsPending (env : Env V) (ex : Exports) (ops : List (Op V)) (p : Pending) : Prop :=
-  ∃ c b, ops[p.id]? = some (.call c b) ∧ (handleCall env ex p.id c b).2 = some p ∧
+  ∃ c b, ops[p.id]? = some (.call c b) ∧ (handleCall env (exportsAt ex ops p.id) p.id c b).2 = some p ∧
     firstResolve p.id (ops.drop (p.id + 1)) = none
 
 theorem IsPending.lt {env : Env V} {ex : Exports} {ops : List (Op V)} {p : Pending}
@@ -137,204 +157,237 @@ theorem drop_snoc_lt (ops : List (Op V)) (op : Op V) (k : Nat) (h : k < ops.leng
     (ops ++ [op]).drop (k + 1) = ops.drop (k + 1) ++ [op] :=
   List.drop_append_of_le_length (by omega)
 
-theorem callEvents_snoc_call (env : Env V) (ex : Exports) (ops : List (Op V)) (c : Call V)
-    (b : Nat → Outcome V) (k : Nat) :
-    callEvents env ex (ops ++ [.call c b]) k =
-      if k = ops.length then (handleCall env ex k c b).1 else callEvents env ex ops k := by
-  by_cases hlt : k < ops.length
-  · have hne : k ≠ ops.length := by omega
-    simp only [hne, if_false]
-    unfold callEvents
-    rw [getElem?_snoc_lt _ _ _ hlt, drop_snoc_lt _ _ _ hlt, firstResolve_append]
-    simp only [firstResolve]
-    cases ops[k]? with
-    | none => rfl
-    | some op =>
-      cases op with
-      | resolve j r => rfl
-      | call c' b' =>
-        simp only
-        cases (handleCall env ex k c' b').2 with
-        | none => rfl
-        | some p =>
-          simp only
-          cases firstResolve k (List.drop (k + 1) ops) <;> rfl
-  · by_cases heq : k = ops.length
-    · subst heq
-      simp only [if_true]
-      unfold callEvents
-      have h1 : (ops ++ [Op.call c b])[ops.length]? = some (Op.call c b) := by simp
-      have h2 : (ops ++ [Op.call c b]).drop (ops.length + 1) = [] := by simp
-      rw [h1, h2]
-      simp only [firstResolve]
-      cases (handleCall env ex ops.length c b).2 <;> simp
-    · simp only [heq, if_false]
-      rw [callEvents_ge _ _ _ _ (by simp; omega), callEvents_ge _ _ _ _ (by omega)]
-
-theorem callEvents_snoc_resolve (env : Env V) (ex : Exports) (ops : List (Op V)) (j : Nat)
-    (res : Resolution V) (k : Nat) :
-    callEvents env ex (ops ++ [.resolve j res]) k =
+/-- Adding one operation at the end: the events of an earlier call `k` grow only when the new
+operation is the first `resolve k` after it. -/
+theorem callEvents_snoc_lt (env : Env V) (ex : Exports) (ops : List (Op V)) (op : Op V) (k : Nat)
+    (hlt : k < ops.length) :
+    callEvents env ex (ops ++ [op]) k =
       match ops[k]? with
       | some (.call c b) =>
-        (handleCall env ex k c b).1 ++
-          (match (handleCall env ex k c b).2 with
+        (handleCall env (exportsAt ex ops k) k c b).1 ++
+          (match (handleCall env (exportsAt ex ops k) k c b).2 with
            | some p =>
              match firstResolve k (ops.drop (k + 1)) with
              | some x => fire env p x
-             | none => if j = k then fire env p res else []
+             | none =>
+               match firstResolve k [op] with
+               | some res => fire env p res
+               | none => []
            | none => [])
       | _ => [] := by
-  by_cases hlt : k < ops.length
-  · unfold callEvents
-    rw [getElem?_snoc_lt _ _ _ hlt, drop_snoc_lt _ _ _ hlt, firstResolve_append]
-    simp only [firstResolve]
-    cases ops[k]? with
-    | none => rfl
-    | some op =>
-      cases op with
-      | resolve j r => rfl
-      | call c' b' =>
-        simp only
-        cases (handleCall env ex k c' b').2 with
-        | none => rfl
-        | some p =>
-          simp only
-          cases firstResolve k (List.drop (k + 1) ops) with
-          | some x => rfl
-          | none =>
-            by_cases hj : j = k <;> simp [hj]
-  · rw [List.getElem?_eq_none (by omega)]
-    by_cases heq : k = ops.length
-    · subst heq
-      unfold callEvents
-      have h1 : (ops ++ [Op.resolve j res])[ops.length]? = some (Op.resolve j res) := by simp
-      rw [h1]
-    · rw [callEvents_ge _ _ _ _ (by simp; omega)]
-
-theorem isPending_snoc_call (env : Env V) (ex : Exports) (ops : List (Op V)) (c : Call V)
-    (b : Nat → Outcome V) (p : Pending) :
-    IsPending env ex (ops ++ [.call c b]) p ↔
-      IsPending env ex ops p ∨ (p.id = ops.length ∧ (handleCall env ex ops.length c b).2 = some p) := by
-  constructor
-  · rintro ⟨c', b', h1, h2, h3⟩
-    by_cases hlt : p.id < ops.length
-    · left
-      rw [getElem?_snoc_lt _ _ _ hlt] at h1
-      rw [drop_snoc_lt _ _ _ hlt, firstResolve_append] at h3
-      refine ⟨c', b', h1, h2, ?_⟩
-      cases hf : firstResolve p.id (List.drop (p.id + 1) ops) with
+  unfold callEvents
+  rw [getElem?_snoc_lt _ _ _ hlt, drop_snoc_lt _ _ _ hlt, firstResolve_append,
+    exportsAt_snoc_le ex ops op k (by omega)]
+  cases ops[k]? with
+  | none => rfl
+  | some o =>
+    cases o with
+    | resolve j r => rfl
+    | exportObj pa ob => rfl
+    | unexportObj pa => rfl
+    | call c' b' =>
+      simp only
+      cases (handleCall env (exportsAt ex ops k) k c' b').2 with
       | none => rfl
-      | some x => simp [hf] at h3
-    · by_cases heq : p.id = ops.length
-      · right
-        rw [heq] at h1 h2
-        have : (ops ++ [Op.call c b])[ops.length]? = some (Op.call c b) := by simp
-        rw [this] at h1
-        injection h1 with h1
-        injection h1 with hc hb
-        subst hc; subst hb
-        exact ⟨heq, h2⟩
-      · rw [List.getElem?_eq_none (by simp; omega)] at h1
-        simp at h1
-  · rintro (h | ⟨heq, h2⟩)
-    · have hlt := h.lt
-      obtain ⟨c', b', h1, h2, h3⟩ := h
-      refine ⟨c', b', ?_, h2, ?_⟩
-      · rw [getElem?_snoc_lt _ _ _ hlt]; exact h1
-      · rw [drop_snoc_lt _ _ _ hlt, firstResolve_append, h3]
-        simp [firstResolve]
-    · refine ⟨c, b, ?_, ?_, ?_⟩
-      · rw [heq]; simp
-      · rw [heq]; exact h2
-      · rw [heq]; simp [firstResolve]
+      | some p =>
+        simp only
+        cases firstResolve k (List.drop (k + 1) ops) <;> rfl
 
-theorem isPending_snoc_resolve (env : Env V) (ex : Exports) (ops : List (Op V)) (j : Nat)
-    (res : Resolution V) (p : Pending) :
-    IsPending env ex (ops ++ [.resolve j res]) p ↔ IsPending env ex ops p ∧ p.id ≠ j := by
+theorem callEvents_snoc_lt_same (env : Env V) (ex : Exports) (ops : List (Op V)) (op : Op V) (k : Nat)
+    (hlt : k < ops.length) (hop : firstResolve k [op] = none) :
+    callEvents env ex (ops ++ [op]) k = callEvents env ex ops k := by
+  rw [callEvents_snoc_lt env ex ops op k hlt, hop]
+  unfold callEvents
+  cases ops[k]? with
+  | none => rfl
+  | some o =>
+    cases o with
+    | resolve j r => rfl
+    | exportObj pa ob => rfl
+    | unexportObj pa => rfl
+    | call c' b' => simp only
+
+/-- The new last operation when it is not a call: no events of its own number. -/
+theorem callEvents_snoc_last_notcall (env : Env V) (ex : Exports) (ops : List (Op V)) (op : Op V)
+    (h : ∀ c b, op ≠ .call c b) : callEvents env ex (ops ++ [op]) ops.length = [] := by
+  unfold callEvents
+  have h1 : (ops ++ [op])[ops.length]? = some op := by simp
+  rw [h1]
+  cases op with
+  | call c b => exact absurd rfl (h c b)
+  | resolve j r => rfl
+  | exportObj pa ob => rfl
+  | unexportObj pa => rfl
+
+theorem callEvents_snoc_last_call (env : Env V) (ex : Exports) (ops : List (Op V)) (c : Call V)
+    (b : Nat → Outcome V) :
+    callEvents env ex (ops ++ [.call c b]) ops.length =
+      (handleCall env (exportsAfter ex ops) ops.length c b).1 := by
+  unfold callEvents
+  have h1 : (ops ++ [Op.call c b])[ops.length]? = some (Op.call c b) := by simp
+  have h2 : (ops ++ [Op.call c b]).drop (ops.length + 1) = [] := by simp
+  rw [h1, h2, exportsAt_snoc_le ex ops _ ops.length (Nat.le_refl _), exportsAt_length]
+  simp only [firstResolve]
+  cases (handleCall env (exportsAfter ex ops) ops.length c b).2 <;> simp
+
+theorem callEvents_snoc_gt (env : Env V) (ex : Exports) (ops : List (Op V)) (op : Op V) (k : Nat)
+    (h : ops.length < k) : callEvents env ex (ops ++ [op]) k = [] :=
+  callEvents_ge _ _ _ _ (by simp; omega)
+
+/-- Who is pending after one more operation. -/
+theorem isPending_snoc_lt (env : Env V) (ex : Exports) (ops : List (Op V)) (op : Op V) (p : Pending)
+    (hlt : p.id < ops.length) :
+    IsPending env ex (ops ++ [op]) p ↔ IsPending env ex ops p ∧ firstResolve p.id [op] = none := by
+  unfold IsPending
+  rw [getElem?_snoc_lt _ _ _ hlt, drop_snoc_lt _ _ _ hlt, firstResolve_append,
+    exportsAt_snoc_le ex ops op p.id (by omega)]
   constructor
   · rintro ⟨c', b', h1, h2, h3⟩
-    by_cases hlt : p.id < ops.length
-    · rw [getElem?_snoc_lt _ _ _ hlt] at h1
-      rw [drop_snoc_lt _ _ _ hlt, firstResolve_append] at h3
-      cases hf : firstResolve p.id (List.drop (p.id + 1) ops) with
-      | some x => simp [hf] at h3
-      | none =>
-        rw [hf] at h3
-        simp only [firstResolve] at h3
-        by_cases hj : j = p.id
-        · simp [hj] at h3
-        · exact ⟨⟨c', b', h1, h2, hf⟩, fun h => hj h.symm⟩
-    · by_cases heq : p.id = ops.length
-      · rw [heq] at h1
-        have : (ops ++ [Op.resolve j res])[ops.length]? = some (Op.resolve j res) := by simp
-        rw [this] at h1
-        injection h1 with h1
-        cases h1
-      · rw [List.getElem?_eq_none (by simp; omega)] at h1
-        simp at h1
-  · rintro ⟨h, hne⟩
-    have hlt := h.lt
-    obtain ⟨c', b', h1, h2, h3⟩ := h
-    refine ⟨c', b', ?_, h2, ?_⟩
-    · rw [getElem?_snoc_lt _ _ _ hlt]; exact h1
-    · rw [drop_snoc_lt _ _ _ hlt, firstResolve_append, h3]
-      have : ¬ (j = p.id) := fun h => hne h.symm
-      simp [firstResolve, this]
+    cases hf : firstResolve p.id (List.drop (p.id + 1) ops) with
+    | some x => simp [hf] at h3
+    | none =>
+      rw [hf] at h3
+      exact ⟨⟨c', b', h1, h2, rfl⟩, h3⟩
+  · rintro ⟨⟨c', b', h1, h2, h3⟩, h4⟩
+    exact ⟨c', b', h1, h2, by rw [h3]; exact h4⟩
+
+theorem isPending_snoc (env : Env V) (ex : Exports) (ops : List (Op V)) (op : Op V) (p : Pending) :
+    IsPending env ex (ops ++ [op]) p ↔
+      (IsPending env ex ops p ∧ firstResolve p.id [op] = none) ∨
+      (p.id = ops.length ∧ ∃ c b, op = .call c b ∧
+        (handleCall env (exportsAfter ex ops) ops.length c b).2 = some p) := by
+  by_cases hlt : p.id < ops.length
+  · rw [isPending_snoc_lt env ex ops op p hlt]
+    constructor
+    · intro h; exact Or.inl h
+    · rintro (h | ⟨h, _⟩)
+      · exact h
+      · omega
+  · constructor
+    · intro h
+      have hl := h.lt
+      have heq : p.id = ops.length := by simp at hl; omega
+      obtain ⟨c', b', h1, h2, _⟩ := h
+      right
+      rw [heq] at h1 h2
+      have : (ops ++ [op])[ops.length]? = some op := by simp
+      rw [this] at h1
+      injection h1 with h1
+      rw [exportsAt_snoc_le ex ops op ops.length (Nat.le_refl _), exportsAt_length] at h2
+      exact ⟨heq, c', b', h1, h2⟩
+    · rintro (⟨h, _⟩ | ⟨heq, c, b, hop, h2⟩)
+      · exact absurd h.lt hlt
+      · subst hop
+        refine ⟨c, b, ?_, ?_, ?_⟩
+        · rw [heq]; simp
+        · rw [heq, exportsAt_snoc_le ex ops _ ops.length (Nat.le_refl _), exportsAt_length]; exact h2
+        · rw [heq]; simp [firstResolve]
 
 /-! ### the invariant of `run` -/
 
-/-- After a history: the operation counter, who is pending, and the events of every call. -/
+/-- After a history: the operation counter, the exports, who is pending, and the events of every call. -/
 def RunInv (env : Env V) (ex : Exports) (ops : List (Op V)) : Prop :=
   (run env ex ops).1.next = ops.length ∧
+  (run env ex ops).1.exports = exportsAfter ex ops ∧
   (∀ p, p ∈ (run env ex ops).1.pending ↔ IsPending env ex ops p) ∧
   (∀ k, eventsOf k (run env ex ops).2 = callEvents env ex ops k)
 
 theorem runInv_nil (env : Env V) (ex : Exports) : RunInv env ex ([] : List (Op V)) := by
-  refine ⟨rfl, ?_, ?_⟩
+  refine ⟨rfl, rfl, ?_, ?_⟩
   · intro p
     constructor
     · intro h; simp [run, runFrom, State.init] at h
     · intro h; have := h.lt; simp at this
   · intro k; rfl
 
+/-- An operation that neither is a call nor fires a Deferred leaves pending set and events alone. -/
+theorem runInv_snoc_quiet (env : Env V) (ex : Exports) (ops : List (Op V)) (op : Op V)
+    (hq : ∀ k, firstResolve k [op] = none) (hc : ∀ c b, op ≠ .call c b)
+    (hstep : step env (run env ex ops).1 op =
+      ({ next := (run env ex ops).1.next + 1, pending := (run env ex ops).1.pending,
+         exports := exportsAfter (run env ex ops).1.exports [op] }, []))
+    (ih : RunInv env ex ops) : RunInv env ex (ops ++ [op]) := by
+  obtain ⟨hn, hx, hp, he⟩ := ih
+  unfold RunInv
+  rw [run_snoc, hstep]
+  refine ⟨by simp [hn], ?_, ?_, ?_⟩
+  · simp only [hx, exportsAfter_append]
+  · intro p
+    rw [isPending_snoc]
+    simp only [hp, hq, and_true]
+    constructor
+    · intro h; exact Or.inl h
+    · rintro (h | ⟨_, c, b, hop, _⟩)
+      · exact h
+      · exact absurd hop (hc c b)
+  · intro k
+    rw [List.append_nil, he]
+    by_cases hlt : k < ops.length
+    · rw [callEvents_snoc_lt_same env ex ops op k hlt (hq k)]
+    · by_cases heq : k = ops.length
+      · subst heq
+        rw [callEvents_snoc_last_notcall env ex ops op hc, callEvents_ge _ _ _ _ (Nat.le_refl _)]
+      · rw [callEvents_snoc_gt env ex ops op k (by omega), callEvents_ge _ _ _ _ (by omega)]
+
 theorem runInv_snoc (env : Env V) (ex : Exports) (ops : List (Op V)) (op : Op V)
     (ih : RunInv env ex ops) : RunInv env ex (ops ++ [op]) := by
-  obtain ⟨hn, hp, he⟩ := ih
-  unfold RunInv
-  rw [run_snoc]
   cases op with
+  | exportObj pa ob =>
+    exact runInv_snoc_quiet env ex ops _ (fun _ => rfl) (fun _ _ h => by cases h) rfl ih
+  | unexportObj pa =>
+    exact runInv_snoc_quiet env ex ops _ (fun _ => rfl) (fun _ _ h => by cases h) rfl ih
   | call c b =>
-    simp only [step, hn]
-    refine ⟨by simp, ?_, ?_⟩
+    obtain ⟨hn, hx, hp, he⟩ := ih
+    unfold RunInv
+    rw [run_snoc]
+    simp only [step, hn, hx]
+    refine ⟨by simp, ?_, ?_, ?_⟩
+    · rw [exportsAfter_append]; rfl
     · intro p
-      rw [isPending_snoc_call]
-      cases hr : (handleCall env ex ops.length c b).2 with
+      rw [isPending_snoc]
+      have hfr : firstResolve p.id [Op.call c b] = none := rfl
+      simp only [hfr, and_true]
+      cases hr : (handleCall env (exportsAfter ex ops) ops.length c b).2 with
       | none =>
         simp only [hp]
         constructor
         · intro h; exact Or.inl h
-        · rintro (h | ⟨_, h⟩)
+        · rintro (h | ⟨_, c', b', hop, h⟩)
           · exact h
-          · simp at h
+          · injection hop with hc hb; subst hc; subst hb
+            rw [hr] at h; cases h
       | some q =>
         simp only [List.mem_cons, hp]
         constructor
         · rintro (h | h)
           · subst h
-            exact Or.inr ⟨handleCall_pending_id env ex _ c b p hr, rfl⟩
+            exact Or.inr ⟨handleCall_pending_id env _ _ c b p hr, c, b, rfl, hr⟩
           · exact Or.inl h
-        · rintro (h | ⟨_, h⟩)
+        · rintro (h | ⟨_, c', b', hop, h⟩)
           · exact Or.inr h
-          · injection h with h; exact Or.inl h.symm
+          · injection hop with hc hb; subst hc; subst hb
+            rw [hr] at h; injection h with h; exact Or.inl h.symm
     · intro k
-      rw [eventsOf_append, eventsOf_tag, he, callEvents_snoc_call]
-      by_cases hk : k = ops.length
-      · subst hk
-        simp [callEvents_ge]
-      · have : ¬ (ops.length = k) := fun h => hk h.symm
-        simp [hk, this]
+      rw [eventsOf_append, eventsOf_tag, he]
+      by_cases hlt : k < ops.length
+      · have : ¬ (ops.length = k) := by omega
+        rw [callEvents_snoc_lt_same env ex ops _ k hlt rfl]
+        simp [this]
+      · by_cases heq : k = ops.length
+        · subst heq
+          rw [callEvents_snoc_last_call, callEvents_ge _ _ _ _ (Nat.le_refl _)]
+          simp
+        · have : ¬ (ops.length = k) := fun h => heq h.symm
+          rw [callEvents_snoc_gt env ex ops _ k (by omega), callEvents_ge _ _ _ _ (by omega)]
+          simp [this]
   | resolve j res =>
+    obtain ⟨hn, hx, hp, he⟩ := ih
+    unfold RunInv
+    rw [run_snoc]
     simp only [step, hn]
+    have hfr : ∀ k, firstResolve k [Op.resolve j res] = if j = k then some res else none := by
+      intro k; simp [firstResolve]
+    have hnc : ∀ c b, Op.resolve j res ≠ Op.call c b := fun _ _ h => by cases h
     cases hf : (run env ex ops).1.pending.find? (fun p => decide (p.id = j)) with
     | none =>
       simp only
@@ -342,39 +395,55 @@ theorem runInv_snoc (env : Env V) (ex : Exports) (ops : List (Op V)) (op : Op V)
         intro p hm
         have := List.find?_eq_none.mp hf p hm
         simpa using this
-      refine ⟨by simp, ?_, ?_⟩
+      refine ⟨by simp, ?_, ?_, ?_⟩
+      · rw [exportsAfter_append, hx]; rfl
       · intro p
-        rw [isPending_snoc_resolve, ← hp]
+        rw [isPending_snoc, ← hp, hfr]
         constructor
-        · intro h; exact ⟨h, hnone p h⟩
-        · intro h; exact h.1
+        · intro h
+          left
+          refine ⟨h, ?_⟩
+          have := hnone p h
+          have hjp : ¬ (j = p.id) := fun hh => this hh.symm
+          simp [hjp]
+        · rintro (⟨h, _⟩ | ⟨_, c, b, hop, _⟩)
+          · exact h
+          · exact absurd hop (hnc c b)
       · intro k
-        rw [List.append_nil, he, callEvents_snoc_resolve]
-        unfold callEvents
-        cases hk : ops[k]? with
-        | none => rfl
-        | some op =>
-          cases op with
-          | resolve j' r' => rfl
-          | call c' b' =>
-            simp only
-            cases hr : (handleCall env ex k c' b').2 with
-            | none => rfl
-            | some p =>
+        rw [List.append_nil, he]
+        by_cases hlt : k < ops.length
+        · rw [callEvents_snoc_lt env ex ops _ k hlt, hfr]
+          unfold callEvents
+          cases hk : ops[k]? with
+          | none => rfl
+          | some op =>
+            cases op with
+            | resolve j' r' => rfl
+            | exportObj pa ob => rfl
+            | unexportObj pa => rfl
+            | call c' b' =>
               simp only
-              cases hfr : firstResolve k (List.drop (k + 1) ops) with
-              | some x => rfl
-              | none =>
-                by_cases hj : j = k
-                · exfalso
-                  have hid := handleCall_pending_id env ex k c' b' p hr
-                  have : IsPending env ex ops p := by
-                    refine ⟨c', b', ?_, ?_, ?_⟩
-                    · rw [hid]; exact hk
-                    · rw [hid]; exact hr
-                    · rw [hid]; exact hfr
-                  exact hnone p ((hp p).mpr this) (by omega)
-                · simp [hj]
+              cases hr : (handleCall env (exportsAt ex ops k) k c' b').2 with
+              | none => rfl
+              | some p =>
+                simp only
+                cases hfr' : firstResolve k (List.drop (k + 1) ops) with
+                | some x => rfl
+                | none =>
+                  by_cases hj : j = k
+                  · exfalso
+                    have hid := handleCall_pending_id env _ k c' b' p hr
+                    have : IsPending env ex ops p := by
+                      refine ⟨c', b', ?_, ?_, ?_⟩
+                      · rw [hid]; exact hk
+                      · rw [hid]; exact hr
+                      · rw [hid]; exact hfr'
+                    exact hnone p ((hp p).mpr this) (by omega)
+                  · simp [hj]
+        · by_cases heq : k = ops.length
+          · subst heq
+            rw [callEvents_snoc_last_notcall env ex ops _ hnc, callEvents_ge _ _ _ _ (Nat.le_refl _)]
+          · rw [callEvents_snoc_gt env ex ops _ k (by omega), callEvents_ge _ _ _ _ (by omega)]
     | some q =>
       simp only
       have hq_mem : q ∈ (run env ex ops).1.pending := List.mem_of_find?_eq_some hf
@@ -382,20 +451,38 @@ theorem runInv_snoc (env : Env V) (ex : Exports) (ops : List (Op V)) (op : Op V)
         have := List.find?_some hf
         simpa using this
       have hq := (hp q).mp hq_mem
+      have hjlt : j < ops.length := hq_id ▸ hq.lt
       obtain ⟨cq, bq, hq1, hq2, hq3⟩ := hq
       rw [hq_id] at hq1 hq2 hq3
-      refine ⟨by simp, ?_, ?_⟩
+      refine ⟨by simp, ?_, ?_, ?_⟩
+      · rw [exportsAfter_append, hx]; rfl
       · intro p
-        rw [isPending_snoc_resolve, ← hp]
-        simp [List.mem_filter]
+        rw [isPending_snoc, ← hp, hfr]
+        simp only [List.mem_filter, decide_eq_true_eq]
+        constructor
+        · rintro ⟨h, hne⟩
+          left
+          have hjp : ¬ (j = p.id) := fun hh => hne hh.symm
+          exact ⟨h, by simp [hjp]⟩
+        · rintro (⟨h, hh⟩ | ⟨_, c, b, hop, _⟩)
+          · refine ⟨h, ?_⟩
+            intro heq
+            simp [heq] at hh
+          · exact absurd hop (hnc c b)
       · intro k
-        rw [eventsOf_append, eventsOf_tag, he, callEvents_snoc_resolve]
+        rw [eventsOf_append, eventsOf_tag, he]
         by_cases hj : j = k
         · subst hj
+          rw [callEvents_snoc_lt env ex ops _ j hjlt, hfr]
           unfold callEvents
           simp [hq1, hq2, hq3]
-        · unfold callEvents
-          simp only [hj, if_false, List.append_nil]
+        · simp only [hj, if_false, List.append_nil]
+          by_cases hlt : k < ops.length
+          · rw [callEvents_snoc_lt_same env ex ops _ k hlt (by rw [hfr]; simp [hj])]
+          · by_cases heq : k = ops.length
+            · subst heq
+              rw [callEvents_snoc_last_notcall env ex ops _ hnc, callEvents_ge _ _ _ _ (Nat.le_refl _)]
+            · rw [callEvents_snoc_gt env ex ops _ k (by omega), callEvents_ge _ _ _ _ (by omega)]
 
 theorem runInv (env : Env V) (ex : Exports) (ops : List (Op V)) : RunInv env ex ops := by
   have : ∀ l : List (Op V), RunInv env ex l.reverse := by
@@ -410,11 +497,16 @@ theorem runInv (env : Env V) (ex : Exports) (ops : List (Op V)) : RunInv env ex 
 /-- The events of call `k` in the trace of a history. -/
 theorem eventsOf_run (env : Env V) (ex : Exports) (ops : List (Op V)) (k : Nat) :
     eventsOf k (run env ex ops).2 = callEvents env ex ops k :=
-  (runInv env ex ops).2.2 k
+  (runInv env ex ops).2.2.2 k
 
 /-- Who is pending at the end of a history. -/
 theorem pending_run (env : Env V) (ex : Exports) (ops : List (Op V)) (p : Pending) :
     p ∈ (run env ex ops).1.pending ↔ IsPending env ex ops p :=
-  (runInv env ex ops).2.1 p
+  (runInv env ex ops).2.2.1 p
+
+/-- What is exported at the end of a history. -/
+theorem exports_run (env : Env V) (ex : Exports) (ops : List (Op V)) :
+    (run env ex ops).1.exports = exportsAfter ex ops :=
+  (runInv env ex ops).2.1
 
 end Txdbus.Obj.DispatchProofs
